@@ -130,6 +130,19 @@ Theorem C09_create_admits_terminating_target :
 Proof. exact create_admits_terminating_target. Qed.
 Print Assumptions C09_create_admits_terminating_target.
 
+(* Terminating jobs: the Update case of AdmitJobs checks them like any other job *)
+Theorem C09_update_on_terminating_job_still_checked :
+  let t n r m d := mkTask n r (Some m) (mkTmpl 1 false 0) [] 3 d None in
+  let jb ts ma q tm := mkJob 7 ts ma [] [] None q 1 3 0 0 0 tm in
+  let old tm := jb [t 4 2 1 None; t 5 1 1 None] 2 2 tm in
+  forall a b,
+    validate_update (old a) (jb [t 4 2 1 None; t 5 1 1 None] 2 5 b) = false /\
+    validate_update (old a) (jb [t 4 2 1 (Some ([5], 0)); t 5 1 1 (Some ([4], 0))] 2 2 b) = false /\
+    validate_update (old a) (jb [t 4 2 3 None; t 5 1 1 None] 2 2 b) = false /\
+    validate_update (old a) (jb [t 4 3 2 None; t 5 1 1 None] 3 2 b) = true.
+Proof. exact update_on_terminating_job_still_checked. Qed.
+Print Assumptions C09_update_on_terminating_job_still_checked.
+
 (* ---- what the executable laws mean (Prop-level soundness; iff for the leaf checkers) ---- *)
 Theorem C09_law_create_sound : forall O qs j,
   law_create O qs j true = true -> intrinsic_clauses O true j /\ queue_wf qs (j_queue j).
@@ -193,7 +206,7 @@ Print Assumptions C09_volumes_wf_b_strong_iff.
 (* a history with a refused request in the middle: verdicts, stored object *)
 Example C09_history_with_refusal :
   let t r m := mkTask 4 r (Some m) (mkTmpl 1 false 0) [] 3 None None in
-  let jb r m ma pr q := mkJob 7 [t r m] ma [] [] None q 1 3 pr 0 0 in
+  let jb r m ma pr q := mkJob 7 [t r m] ma [] [] None q 1 3 pr 0 0 true in
   let j0 := jb 2 1 1 0 2 in
   let us := [jb 5 3 4 1 2; jb 5 3 4 1 5; jb 3 3 3 2 2] in
   validate_create tq_oracles [mkQueue 1 1 0 false; mkQueue 2 1 1 false] j0 = true /\
@@ -213,7 +226,7 @@ Definition ex_job : job :=
      mkTask 0 4 None (mkTmpl 2 false 0) [] 0 (Some ([1], 1)) (Some (mkPart 2 2 1 0));
      mkTask 5 1 (Some 1) (mkTmpl 1 false 2) [] 2 (Some ([1; 1001], 0)) None]
     0 [mkPolicy 7 1 [1] None 0] [mkVol 1 2 None; mkVol 2 0 (Some 1)]
-    (Some [mkPlugin 5 0 0]) 0 0 0 0 1 2.
+    (Some [mkPlugin 5 0 0]) 0 0 0 0 1 2 false.
 Example C09_nonvacuous :
   validate_create ex_oracles ex_queues (prefill ex_job) = true /\
   request_in_range ex_job = true /\
@@ -226,6 +239,6 @@ Example C09_nonvacuous :
               (match j_tasks m with a :: r => mkTask (t_name a) 5 (Some 3) (t_tmpl a) (t_policies a)
                                                (t_maxretry a) (t_deps a) (t_part a) :: r | [] => [] end)
               6 (j_policies m) (j_volumes m) (j_plugins m) (j_queue m) (j_sched m) (j_maxretry m) 9
-              (j_nt m) (j_rest m) in
+              (j_nt m) (j_rest m) true in
    validate_update m u = true /\ m <> u).
 Proof. vm_compute. repeat split; try reflexivity; [eexists; reflexivity | discriminate]. Qed.
